@@ -17,16 +17,15 @@ pub fn c01_fs() -> Fs {
     fs.add(d, "xy", K::File);
     let e = fs.add(0, "e", K::Dir);
     fs.add(e, "xy", K::File);
-    // w/{d/{x1,xy}, ky, x01..x12, z}: a run of twelve consecutive entries matching 'x*' (state carried
-    // from entry to entry needs more entries than r has)
+    // w/{d/{x1}, x01..x12, xy, z}: thirteen consecutive entries matching only 'x*', then one matching
+    // both name tests (state carried from entry to entry needs more entries than r has)
     let w = fs.add(0, "w", K::Dir);
     let wd = fs.add(w, "d", K::Dir);
     fs.add(wd, "x1", K::File);
-    fs.add(wd, "xy", K::File);
-    fs.add(w, "ky", K::File);
     for i in 1..=12 {
         fs.add(w, &format!("x{i:02}"), K::File);
     }
+    fs.add(w, "xy", K::File);
     fs.add(w, "z", K::File);
     fs
 }
